@@ -4,15 +4,32 @@ from common import *
 import kernel
 
 COQ_PROPS = 'props/C02.v'
+COQ_PROPS_EXTRA = ['props/C02impl.v']
 PARTIAL = ('chain rule proved for all trees over + - * / ** (positive base) atan2 (x>0) and the 16 real functions, '
-           'magnitude, mag_squared, phase, unary -/+; function.implicit and atan2 on the other half planes are covered '
-           'by correspondence/oracle only')
+           'magnitude, mag_squared, phase, unary -/+, and the implicit-function form of the components returned by function.implicit; '
+           'atan2 on the other half planes, ** with non-positive base and convergence of the implicit root search are covered by '
+           'correspondence/oracle only')
 ASSUMPTIONS = ['rounding error of float arithmetic is not bounded by proof (theorems are over the reals)']
 TRUSTED = ['Coquelicot (is_derive, auto_derive) and the Coq Reals library']
 
 def correspondence(rng, tier):
     n = 240 if tier == 'quick' else 4000
-    return kernel.run_kernel_corr(rng, n, 'sens', 'C02')
+    r = kernel.run_kernel_corr(rng, n, 'sens', 'C02')
+    # function.implicit (the implicit-function clause): the model of Special.v, cases of p_C20
+    import p_C20, hashlib
+    C = p_C20.Cases()
+    for k in range(60 if tier == 'quick' else 1000): p_C20.gen_implicit(rng, C, k)
+    vals, errs = coq_eval_cases('C02impl', p_C20.HEADER + p_C20.CASE2, C.terms, per_file=30, timeout=900)
+    for e in errs:
+        r['mismatches'].append({'kind': 'coqc-failed', 'file': e['file'], 'output': e['output'][-1200:]})
+    kf = p_C20.kf_C20_implicit_end()[0]
+    for v, m, t in zip(vals, C.meta, C.terms):
+        if v is None or v == -1 or (v == -2 and not kf): continue
+        r['mismatches'].append({'kind': 'model-vs-implementation', 'case': m, 'code': v, 'term': t[:1200]})
+    r['programs'] += len(C.terms); r['steps'] += len(C.terms)
+    r['distribution']['implicit_calls'] = len(C.terms)
+    r['rule'] += '; plus function.implicit calls over 21 function families (see C20) compared bit for bit with the model of Special.v'
+    return r
 
 # ---------------------------------------------------------------- oracle (search only)
 FUN = {
@@ -27,7 +44,7 @@ FUN = {
 BIN = {
  'add': (lambda a, b: a + b, lambda a, b: True), 'sub': (lambda a, b: a - b, lambda a, b: True),
  'mul': (lambda a, b: a * b, lambda a, b: True), 'div': (lambda a, b: a / b, lambda a, b: abs(b) > 0.05),
- 'pow': (lambda a, b: a ** b, lambda a, b: a > 0.05 and abs(b) < 5), 'atan2': (math.atan2, lambda a, b: abs(a) + abs(b) > 0.1 and not (b < 0 and abs(a) < 0.05)),
+ 'pow': (lambda a, b: a ** b, lambda a, b: a > 0.05 and abs(b) < 5), 'atan2': (math.atan2, lambda a, b: abs(a) + abs(b) > 0.1 and not (b <= 0 and abs(a) < 0.05)),
 }
 
 def rand_tree(rng, nin, depth):
@@ -97,16 +114,32 @@ def check_tree(t, xs, us, indep):
                     'sensitivity': s, 'numerical_derivative': d, 'u_component': c}
     return None
 
+SPECIAL = [0.0, 1.0, -1.0, 0.5, 2.0]
+
 def search(rng, tier, broken):
+    import p_C20
     n = 1500 if tier == 'quick' else 20000
     tried = 0
     for _ in range(n):
+        tried += 1
+        if rng.random() < 0.1:
+            f = {'kind': 'implicit', 'family': rng.choice(['lin', 'sq', 'exp']), 'a0': rng.uniform(0.5, 4.0), 'ua': round(rng.uniform(0.05, 1), 3),
+                 'lo': 0.05, 'hi': rng.uniform(2.5, 6.0), 'dep': rng.random() < 0.5}
+            if f['family'] == 'exp': f['lo'] = -2.0
+            try:
+                p = p_C20.run_check(f)
+            except Exception as ex:
+                p = 'raised %r' % (ex,)
+            if p:
+                f['problem'] = p
+                return {'tried': tried, 'failing': f}
+            continue
         nin = rng.randint(1, 4)
         t = rand_tree(rng, nin, rng.randint(1, 5))
-        xs = [round(rng.uniform(-2.5, 2.5), 3) for _ in range(nin)]
+        # mostly generic points, sometimes exact special values (axes of atan2, integer exponents, ...)
+        xs = [rng.choice(SPECIAL) if rng.random() < 0.2 else round(rng.uniform(-2.5, 2.5), 3) for _ in range(nin)]
         us = [round(rng.uniform(0.05, 1.0), 3) for _ in range(nin)]
         indep = [rng.random() < 0.6 for _ in range(nin)]
-        tried += 1
         r = check_tree(t, xs, us, indep)
         if r is not None:
             return {'tried': tried, 'failing': r}
@@ -118,6 +151,11 @@ def is_known(f):
 def replay(payload):
     f = payload.get('failing_input')
     print(json.dumps(payload.get('broken'), indent=1)[:3000])
+    if f and f.get('kind') == 'implicit':
+        import p_C20
+        p = p_C20.run_check(f)
+        print('replayed failing input on the implementation:', 'STILL FAILS %r' % (p,) if p else 'passes now')
+        return 1 if p else 0
     if f:
         r = check_tree(tuple_tree(f['tree']), f['x'], f['u'], f['independent'])
         print('replayed failing input on the implementation:', 'STILL FAILS %r' % (r,) if r else 'passes now')
